@@ -242,6 +242,12 @@ RAW_OUTPUTS = (
     ('not UTF-8: latin-1 text', 'caf\xe9 au lait\n'.encode('latin-1')),
     ('valid UTF-8: multi-byte characters', 'caf\xe9 \u20ac \U0001f600\n'.encode('utf-8')),
     ('valid UTF-8: control characters', b'a\x00\x01\x1b[0m\r\n'),
+    # ... and the outputs that are (nearly) NOTHING: a program that fails need not say anything on stderr (`exit 3`,
+    # `test -f F`, `grep -q`, `false`); the exit code alone decides, what is written is only shown in the message
+    ('nothing: the empty output', b''),
+    ('white space only: one new-line', b'\n'),
+    ('white space only: spaces, a tab, no new-line at the end', b'  \t '),
+    ('white space only: blank lines', b' \n\r\n\n'),
 )
 
 
